@@ -17,7 +17,7 @@ import (
 	"verif/harness/vt"
 )
 
-var faultSites = []string{"tempfile", "encode", "sync", "seek", "decode", "pullread"}
+var faultSites = []string{"tempfile", "encode", "sync", "seek", "decode", "pullread", "clearremove"}
 
 // Faults runs n random single-fault workloads.
 func Faults(w *vt.W, rng *rand.Rand, n int) {
@@ -55,7 +55,6 @@ func runFault(w *vt.W, id, cs, np int, conc bool, site string, k int, ac bool) {
 	if err != nil {
 		vt.Fatal("morass.New: %v", err)
 	}
-	defer m.CleanUp()
 	m.AutoClear = ac
 	pad := strings.Repeat("p", 300)
 	hidden := dir + ".hidden"
@@ -140,6 +139,9 @@ func runFault(w *vt.W, id, cs, np int, conc bool, site string, k int, ac bool) {
 	seen := map[int]bool{}
 	if finalised {
 		for n := 0; n < np+4; n++ {
+			if site == "clearremove" && n == k%np {
+				break // leave runs registered so that the Clear below has files to remove
+			}
 			if site == "pullread" && n == k%np && !injected {
 				fs := m.VerifFiles()
 				if len(fs) > 0 {
@@ -177,6 +179,25 @@ func runFault(w *vt.W, id, cs, np int, conc bool, site string, k int, ac bool) {
 	wasInjected := injected
 	hookMu.Unlock()
 	complete := finalised && sorted && got == np && pushed == np
+	// epilogue (residue clause of C13): whatever went wrong before, after CleanUp the directory is gone;
+	// sometimes a Clear comes first, and for site "clearremove" a run file has been deleted under it so
+	// that this Clear fails half way
+	clearErr := ""
+	clearInjected := false
+	if site == "clearremove" {
+		// not an I/O failure of the sort clause one speaks about: only the residue clause is judged, the
+		// values were deliberately not all pulled
+		complete = finalised && sorted && pushed == np
+		if fs := m.VerifFiles(); len(fs) > 0 {
+			clearInjected = os.Remove(fs[k%len(fs)].Name()) == nil
+		}
+	}
+	if site == "clearremove" || k%2 == 0 {
+		clearErr, _ = guard(m.Clear)
+	}
+	cleanErr, _ := guard(m.CleanUp)
+	_, statErr := os.Stat(mdir)
 	w.Emit(vt.Ev{"op": "faultrun", "id": id, "cs": cs, "npush": np, "conc": conc, "site": site, "k": k,
-		"injected": wasInjected, "reported": reported, "pulled": got, "complete": complete})
+		"injected": wasInjected, "reported": reported, "pulled": got, "complete": complete,
+		"clearerr": clearErr, "clearinjected": clearInjected, "cleanuperr": cleanErr, "dirleft": statErr == nil})
 }
